@@ -241,6 +241,8 @@ def run_program(prog, schedule, first=0, max_steps=None):
         for obj in [port] + list(getattr(port, 'ports', [])) + [getattr(port, 'input', None), getattr(port, 'output', None)]:
             if obj is not None and hasattr(obj, 'closed'):
                 obj.closed = True
+        sched.gave_up = sched.abort
+        sched.abort = True          # whatever is still alive of this run stops at its next yield point
         for t in sched.threads:
             t.fn = None
         sched.by_ident.clear()
@@ -251,7 +253,7 @@ def evaluate(prog, sched, sent, received, copies):
     out = []
     kind = prog['port']
     facts = dict(port=kind)
-    if sched.abort:
+    if getattr(sched, 'gave_up', sched.abort):
         out.append(fail('no-progress', f'{sched.abort_reason} after {sched.steps} steps', **facts))
         return out
     for t in sched.threads:
@@ -465,8 +467,14 @@ def enum_shard(rec, shard):
     idx = 0
     for first in range(nthreads):
         base = {'prog': prog, 'sched': [], 'first': first}
-        rec.execute(base)
+        base_failures = rec.execute(base)
         steps = LAST['steps']
+        if base_failures:
+            # the program already fails without any preemption (under a broken tree it may run into the step bound):
+            # report that and do not enumerate thousands of schedules of a run that never ends
+            if k == 0:
+                do(rec, base, sample=False)
+            continue
         if k == 0:
             do(rec, base, sample=(first == 0))
         alts = range(1, nthreads)
